@@ -79,7 +79,9 @@ Write(single) ==
         /\ pGap' = [r \in Readers |-> IF pPres[r] /\ single # 0 /\ r # single THEN pGap[r] \cup {sn} ELSE pGap[r]]
         /\ AbsWrite(sn, single, hb2, out, done)
   /\ UNCHANGED <<hfirst, pPres, pRel, pAck, pRep, awAct, awUntil, awPend, done>>
-  /\ Log([a |-> "Write", single |-> single, big |-> FALSE])
+  \* the source timestamp the application gives (increasing, always the same, decreasing, none) is the application's
+  \* business and changes nothing in the design: drawn for the replay
+  /\ Log([a |-> "Write", single |-> single, big |-> FALSE, ts |-> RandomElement({"inc", "same", "dec", "none"})])
 
 (* ---- Writer::update_reader_proxy / reader_lost ---- *)
 \* rtl: the reader requests TransientLocal.  compliance_failure_wrt (RxO) comes first; a new proxy gets
